@@ -79,6 +79,11 @@ async def amain(pid: str, replay: str | None) -> int:
         print(json.dumps(res, indent=1, default=str))
         return 1 if res.get("reproduced") else 0
 
+    # stale replay files of an earlier run with this seed would only confuse
+    import glob as _glob
+
+    for old in _glob.glob(str(common.WORK / "replays" / f"{pid}-seed{common.seed()}-*.json")):
+        os.unlink(old)
     # 1. tables
     import gen_tables
 
